@@ -291,32 +291,37 @@ Proof.
   - apply (common_side_qcell ct nx i0 j0 _ i sd e Hm Hi). exact Hcs.
 Qed.
 
-Theorem boundary_border ct nx ny : quad_ok ct = true -> 1 <= nx -> 1 <= ny ->
-  forall k, k < struct_n nx ny -> is_boundary ct (struct_cells nx ny) k = border nx ny k.
+Lemma boundary_border_xy ct nx ny x y : quad_ok ct = true -> 1 <= nx -> 1 <= ny -> x <= nx -> y <= ny ->
+  is_boundary ct (struct_cells nx ny) (sidx nx x y) = (x =? 0) || (x =? nx) || (y =? 0) || (y =? ny).
 Proof.
-  intros OK Hnx Hny k Hk. rewrite (sidx_surj nx k).
-  set (x := k mod S nx). set (y := k / S nx).
-  assert (Hx : x <= nx) by apply mod_le. assert (Hy : y <= ny) by (apply div_le; exact Hk).
-  rewrite border_sidx by exact Hx.
+  intros OK Hnx Hny Hx Hy.
   destruct ((x =? 0) || (x =? nx) || (y =? 0) || (y =? ny)) eqn:B.
   - destruct nx as [|nx']; [lia|]. destruct ny as [|ny']; [lia|].
     destruct (Nat.eq_dec y 0) as [Y0|Y0].
     { destruct (Nat.eq_dec x (S nx')) as [X|X].
-      - apply (boundary_witness ct (S nx') (S ny') nx' 0 0 1 OK); [lia|lia|lia| |unfold on_border; lia| |];
-          cbn; try lia. subst; reflexivity.
+      - replace (sidx (S nx') x y) with (nth 1 (qcell (S nx') nx' 0) 0) by (subst; reflexivity).
+        apply (boundary_witness ct (S nx') (S ny') nx' 0 0 1 OK); [lia|lia|lia| |unfold on_border; lia]. right; reflexivity.
       - replace (sidx (S nx') x y) with (nth 0 (qcell (S nx') x 0) 0) by (subst y; reflexivity).
-        apply (boundary_witness ct (S nx') (S ny') x 0 0 0 OK); [lia|lia|lia| |unfold on_border; lia]. cbn; lia. }
+        apply (boundary_witness ct (S nx') (S ny') x 0 0 0 OK); [lia|lia|lia| |unfold on_border; lia]. left; reflexivity. }
     destruct (Nat.eq_dec y (S ny')) as [Y1|Y1].
     { destruct (Nat.eq_dec x (S nx')) as [X|X].
       - replace (sidx (S nx') x y) with (nth 2 (qcell (S nx') nx' ny') 0) by (subst; reflexivity).
-        apply (boundary_witness ct (S nx') (S ny') nx' ny' 2 2 OK); [lia|lia|lia| |unfold on_border; lia]. cbn; lia.
+        apply (boundary_witness ct (S nx') (S ny') nx' ny' 2 2 OK); [lia|lia|lia| |unfold on_border; lia]. left; reflexivity.
       - replace (sidx (S nx') x y) with (nth 3 (qcell (S nx') x ny') 0) by (subst; reflexivity).
-        apply (boundary_witness ct (S nx') (S ny') x ny' 2 3 OK); [lia|lia|lia| |unfold on_border; lia]. cbn; lia. }
+        apply (boundary_witness ct (S nx') (S ny') x ny' 2 3 OK); [lia|lia|lia| |unfold on_border; lia]. right; reflexivity. }
     destruct (Nat.eq_dec x 0) as [X0|X0].
     { replace (sidx (S nx') x y) with (nth 0 (qcell (S nx') 0 y) 0) by (subst; reflexivity).
-      apply (boundary_witness ct (S nx') (S ny') 0 y 3 0 OK); [lia|lia|lia| |unfold on_border; lia]. cbn; lia. }
+      apply (boundary_witness ct (S nx') (S ny') 0 y 3 0 OK); [lia|lia|lia| |unfold on_border; lia]. right; reflexivity. }
     assert (X1 : x = S nx') by lia.
     replace (sidx (S nx') x y) with (nth 1 (qcell (S nx') nx' y) 0) by (subst; reflexivity).
-    apply (boundary_witness ct (S nx') (S ny') nx' y 1 1 OK); [lia|lia|lia| |unfold on_border; lia]. cbn; lia.
+    apply (boundary_witness ct (S nx') (S ny') nx' y 1 1 OK); [lia|lia|lia| |unfold on_border; lia]. left; reflexivity.
   - apply interior_not_boundary; [exact OK|lia|lia].
+Qed.
+
+Theorem boundary_border ct nx ny : quad_ok ct = true -> 1 <= nx -> 1 <= ny ->
+  forall k, k < struct_n nx ny -> is_boundary ct (struct_cells nx ny) k = border nx ny k.
+Proof.
+  intros OK Hnx Hny k Hk. rewrite (sidx_surj nx k).
+  assert (Hx : k mod S nx <= nx) by apply mod_le. assert (Hy : k / S nx <= ny) by (apply div_le; exact Hk).
+  rewrite border_sidx by exact Hx. apply boundary_border_xy; assumption.
 Qed.
